@@ -21,8 +21,9 @@ HASHES = {
 VARIANTS_QUICK = [
     ("nosimd", ("!__SSE2__",), ()),          # what tests/hash/main.c builds
     ("default", (), ()),                     # x86-64 default: __SSE2__
+    ("sha", (), ("-msha", "-mssse3", "-msse4.1")),   # SHA-NI / SSE4.1 transforms and their block-load macros
 ]
-VARIANTS_THOROUGH = VARIANTS_QUICK + [
+VARIANTS_THOROUGH = VARIANTS_QUICK[:2] + [
     ("ssse3", (), ("-mssse3",)),
     ("sse41", (), ("-msse4.1",)),
     ("avx", (), ("-mavx",)),
